@@ -9,6 +9,10 @@ import json, os, subprocess, sys, glob
 VERIF = os.environ.get("VERIF_ROOT") or os.path.dirname(os.path.dirname(os.path.abspath(__file__)))
 REPO = os.environ.get("VERIF_REPO", "/repo")
 CACHE = os.path.join(VERIF, "cache")
+# checks pointed at another tree (VERIF_REPO, used for seeded changes) keep their own binaries, overlay file and
+# evidence directory, so that they can run at the same time as checks of /repo and never overwrite its evidence
+import hashlib
+ALT = "" if os.path.realpath(REPO) == "/repo" else "-" + hashlib.sha256(os.path.realpath(REPO).encode()).hexdigest()[:10]
 
 GOENV = dict(os.environ, GOFLAGS="-mod=mod", GOPROXY="off", GOSUMDB="off", GOTOOLCHAIN="local")
 
@@ -18,10 +22,10 @@ def build(race=False, tags="verif"):
     repl = {}
     for f in glob.glob(os.path.join(VERIF, "harness", "verifdrv", "*.go")):
         repl[os.path.join(REPO, "cmd", "verifdrv", os.path.basename(f))] = f
-    ov = os.path.join(CACHE, "overlay.json")
+    ov = os.path.join(CACHE, "overlay%s.json" % ALT)
     with open(ov, "w") as fh:
         json.dump({"Replace": repl}, fh, indent=1)
-    out = os.path.join(CACHE, "bin", "verifdrv-race" if race else "verifdrv")
+    out = os.path.join(CACHE, "bin", ("verifdrv-race" if race else "verifdrv") + ALT)
     cmd = ["go", "build", "-tags", tags, "-overlay", ov, "-o", out]
     if race:
         cmd.append("-race")
